@@ -156,7 +156,7 @@ class EventHandler:
             # def my_function():
             #     pass
             def property(callback):
-                self.connect(callback, priority)
+                self.connect(callback, priority, extra_kwargs)
                 return callback
 
             return property
